@@ -112,6 +112,9 @@ type handOpts struct {
 	RawOldStyle bool
 	// NoMixedKids: never put leaves and a subtree side by side under the root
 	NoMixedKids bool
+	// LyingFileSize: one file in four records a root FileSize that is not the sum of its BlockSizes (a few bytes more). Only
+	// for checks whose oracle does not involve the recorded length (request order; concurrent = alone)
+	LyingFileSize bool
 }
 
 func genHandFileOpt(t *rapid.T, o handOpts) (root *mnode, data []byte, writer, desc string) {
@@ -244,6 +247,10 @@ func genHandFileOpt(t *rapid.T, o handOpts) (root *mnode, data []byte, writer, d
 		}
 	}
 	root, _ = interior(kids, sizes, 1)
+	if o.LyingFileSize && root.UFS != nil && root.UFS.FileSize != nil && rapid.IntRange(0, 3).Draw(t, "lyingFileSize") == 0 {
+		root.UFS.FileSize = u64p(*root.UFS.FileSize + uint64(rapid.IntRange(1, 9).Draw(t, "fileSizeOff")))
+		pattern += "+lyingFileSize"
+	}
 	if mixed {
 		noBlockSizes = oldStyleMixed // (for the labels below: "some node lacks BlockSizes")
 	}
